@@ -8,6 +8,24 @@ ALL = [f"C{i:02d}" for i in range(1, 21)]
 
 # id -> (technique, level text, level note, design ref)
 CHECKS = {
+    "C16": (
+        "exhaustive product enumeration shape x dtype x index form (to depth 2) / accessor / constructor route / "
+        "catalogue template / ufunc x call form on the real code; NumPy on the bare data is the reference for shapes, "
+        "values and aliasing (np.shares_memory), the class rule comes from the statement",
+        "9 shapes (0-d to 3-d, size-1 non-scalar, empty) x 3 dtypes x a generated menu of ~35 index forms per shape "
+        "(ints, NumPy ints, slices with steps, Ellipsis, newaxis, boolean masks all/none/mixed/full, integer fancy "
+        "lists/arrays, tuples of those), each followed by a second index, plus iteration: result class, shape, values, "
+        "unit, name, and aliasing of the parent exactly where NumPy aliases; every unit-stripping accessor (.d .ndview "
+        "ndarray_view() must alias, .v .value to_ndarray() to_value() must not), 15 converting/copying calls (never "
+        "alias, even for a same-unit conversion) and 18 reshaping calls on base arrays and on reversed, transposed and "
+        "strided views; 30 constructor routes (ndarray view, lists, lists/tuples of quantities or arrays in mixed "
+        "commensurable units, number/ndarray times Unit in both orders, quantity times ndarray); the class of every "
+        "unit-carrying leaf of every catalogue template and of every ufunc in call/outer/reduce/accumulate/reduceat form "
+        "over shape pairs.",
+        "Size-<=1 non-scalar results ((1,), (1,1), (0,)) may be either class per the statement: listed in the evidence, "
+        "not judged. A 0-d unyt_array obtained only by asking the constructor for that class is not used as an input.",
+        "DESIGN.md section 6 C16",
+    ),
     "C07": (
         "exhaustive enumeration of the complete call-template catalogue x dtype x payload pack x every coherent "
         "change of units (exact dyadic rescalings in a custom registry and ordinary units) on the real code; "
